@@ -6,6 +6,7 @@ use crate::explore::*;
 use crate::img::*;
 use serde_json::{json, Value};
 use std::collections::HashMap;
+use std::sync::atomic::Ordering;
 use yuvxyb::{
     ColorPrimaries as CP, Frame, Hsl, LinearRgb, MatrixCoefficients as MC, Pixel, Plane, Rgb, TransferCharacteristic as TC, Xyb, Yuv,
     YuvConfig,
@@ -47,10 +48,14 @@ fn meta(k: u8, n: u8, ss: (u8, u8)) -> YuvConfig {
 }
 
 fn code(plane: usize, x: usize, y: usize, max: u16) -> u16 {
+    // linear in the low coordinate bits (neighbours, rows and columns differ even at 8 bit) plus terms in
+    // the higher bits, so that the content is not periodic in x or y with a period of 2^n / 256 / 1024
+    // columns or rows: a shift by any such distance within the sizes used changes the sample
+    let hi = 59 * (x >> 6) + 97 * (x >> 10) + 83 * (y >> 6) + 113 * (y >> 10);
     let v = match plane {
-        0 => x * 37 + y * 101 + 11,
-        1 => x * 53 + y * 29 + 7,
-        _ => x * 17 + y * 71 + 3,
+        0 => x * 37 + y * 101 + 11 + hi,
+        1 => x * 53 + y * 29 + 7 + 3 * hi,
+        _ => x * 17 + y * 71 + 3 + 5 * hi,
     };
     (v % (max as usize + 1)) as u16
 }
@@ -216,20 +221,54 @@ fn check_decode<T: Pixel>(acc: &mut Acc, idx: u64, tier: Tier, c: &DecCase, memo
 
 const FOPS: [&str; 8] = ["RgbToLin", "LinToRgb", "LinToXyb", "XybToLin", "LinToHsl", "HslToLin", "RgbToXyb", "XybToRgb"];
 
+enum FSrc {
+    Rgb(Rgb),
+    Lin(LinearRgb),
+    Xyb(Xyb),
+    Hsl(Hsl),
+}
+
+fn fsrc(op: &str, data: Vec<[f32; 3]>, w: usize, h: usize) -> FSrc {
+    let (t, p) = (TC::HybridLogGamma, CP::P3DCI);
+    match op {
+        "RgbToLin" | "RgbToXyb" => FSrc::Rgb(Rgb::new(data, w, h, t, p).unwrap()),
+        "LinToRgb" | "LinToXyb" | "LinToHsl" => FSrc::Lin(LinearRgb::new(data, w, h).unwrap()),
+        "HslToLin" => FSrc::Hsl(Hsl::new(data, w, h).unwrap()),
+        _ => FSrc::Xyb(Xyb::new(data, w, h).unwrap()),
+    }
+}
+
+fn fconv_src(op: &str, src: FSrc) -> Result<(Vec<[u32; 3]>, usize, usize), yuvxyb::ConversionError> {
+    let (t, p) = (TC::HybridLogGamma, CP::P3DCI);
+    Ok(match (op, src) {
+        ("RgbToLin", FSrc::Rgb(s)) => { let r = LinearRgb::try_from(s)?; (bits(r.data()), r.width(), r.height()) }
+        ("LinToRgb", FSrc::Lin(s)) => { let r = Rgb::try_from((s, t, p))?; (bits(r.data()), r.width(), r.height()) }
+        ("LinToXyb", FSrc::Lin(s)) => { let r = Xyb::from(s); (bits(r.data()), r.width(), r.height()) }
+        ("XybToLin", FSrc::Xyb(s)) => { let r = LinearRgb::from(s); (bits(r.data()), r.width(), r.height()) }
+        ("LinToHsl", FSrc::Lin(s)) => { let r = Hsl::from(s); (bits(r.data()), r.width(), r.height()) }
+        ("HslToLin", FSrc::Hsl(s)) => { let r = LinearRgb::from(s); (bits(r.data()), r.width(), r.height()) }
+        ("RgbToXyb", FSrc::Rgb(s)) => { let r = Xyb::try_from(s)?; (bits(r.data()), r.width(), r.height()) }
+        (_, FSrc::Xyb(s)) => { let r = Rgb::try_from((s, t, p))?; (bits(r.data()), r.width(), r.height()) }
+        _ => unreachable!("source kind does not match the conversion"),
+    })
+}
+
 fn fconv(op: &str, data: Vec<[f32; 3]>, w: usize, h: usize) -> Result<(Vec<[u32; 3]>, usize, usize), String> {
-    guarded(|| -> Result<(Vec<[u32; 3]>, usize, usize), String> {
-        let e = |e: yuvxyb::ConversionError| format!("{e:?}");
-        let (t, p) = (TC::HybridLogGamma, CP::P3DCI);
-        Ok(match op {
-            "RgbToLin" => { let r = LinearRgb::try_from(Rgb::new(data, w, h, t, p).unwrap()).map_err(e)?; (bits(r.data()), r.width(), r.height()) }
-            "LinToRgb" => { let r = Rgb::try_from((LinearRgb::new(data, w, h).unwrap(), t, p)).map_err(e)?; (bits(r.data()), r.width(), r.height()) }
-            "LinToXyb" => { let r = Xyb::from(LinearRgb::new(data, w, h).unwrap()); (bits(r.data()), r.width(), r.height()) }
-            "XybToLin" => { let r = LinearRgb::from(Xyb::new(data, w, h).unwrap()); (bits(r.data()), r.width(), r.height()) }
-            "LinToHsl" => { let r = Hsl::from(LinearRgb::new(data, w, h).unwrap()); (bits(r.data()), r.width(), r.height()) }
-            "HslToLin" => { let r = LinearRgb::from(Hsl::new(data, w, h).unwrap()); (bits(r.data()), r.width(), r.height()) }
-            "RgbToXyb" => { let r = Xyb::try_from(Rgb::new(data, w, h, t, p).unwrap()).map_err(e)?; (bits(r.data()), r.width(), r.height()) }
-            _ => { let r = Rgb::try_from((Xyb::new(data, w, h).unwrap(), t, p)).map_err(e)?; (bits(r.data()), r.width(), r.height()) }
-        })
+    guarded(|| fconv_src(op, fsrc(op, data, w, h)).map_err(|e| format!("{e:?}")))?
+}
+
+/// The same conversion of an image that was constructed with `init` as its content and then
+/// overwritten in place, through the public `data_mut()`, with `data`.
+fn fconv_via_data_mut(op: &str, init: Vec<[f32; 3]>, data: &[[f32; 3]], w: usize, h: usize) -> Result<(Vec<[u32; 3]>, usize, usize), String> {
+    guarded(|| {
+        let mut src = fsrc(op, init, w, h);
+        match &mut src {
+            FSrc::Rgb(s) => s.data_mut().copy_from_slice(data),
+            FSrc::Lin(s) => s.data_mut().copy_from_slice(data),
+            FSrc::Xyb(s) => s.data_mut().copy_from_slice(data),
+            FSrc::Hsl(s) => s.data_mut().copy_from_slice(data),
+        }
+        fconv_src(op, src).map_err(|e| format!("{e:?}"))
     })?
 }
 
@@ -286,6 +325,42 @@ fn check_float(acc: &mut Acc, idx: u64, w: usize, h: usize, op: &str) {
             }
             Err(e) => {
                 acc.violation(idx, format!("conversion-failed op={op} {}", panic_site(&e)), format!("{w}x{h} with special neighbours: {e}"), case());
+                return;
+            }
+        }
+    }
+    // an image is its current content: one that was constructed with other content and then
+    // overwritten through data_mut() must convert exactly like one constructed with that content
+    // (anything a type remembers about its pixels at construction time would show here). Initial
+    // contents differ from the final one in sign, range, finiteness and greyness.
+    if w * h >= 3 {
+        let mut data2 = data.clone();
+        let specials: [[f32; 3]; 4] = [[-0.3, 1.7, 2.5], [1e30, -1e30, 0.0], [f32::NAN, 0.5, f32::INFINITY], [-0.0, 0.0, 1e-40]];
+        for i in (2..w * h).step_by(5) {
+            data2[i] = specials[(i / 5) % 4];
+        }
+        let want2 = fconv(op, data2.clone(), w, h).ok().map(|o| o.0);
+        let inits: [(&str, Vec<[f32; 3]>, &Vec<[f32; 3]>, Option<Vec<[u32; 3]>>); 5] = [
+            ("all zero", vec![[0.0; 3]; w * h], &data, Some(out.clone())),
+            ("all mid-grey", vec![[0.5; 3]; w * h], &data, Some(out.clone())),
+            ("all NaN", vec![[f32::NAN; 3]; w * h], &data, Some(out.clone())),
+            ("in-range content, then out-of-range / special pixels poked in", data.clone(), &data2, want2.clone()),
+            ("content with out-of-range / special pixels, then in-range content poked in", data2.clone(), &data, Some(out.clone())),
+        ];
+        for (what, init, fin, want) in inits {
+            acc.transitions += 1;
+            let got = fconv_via_data_mut(op, init, fin, w, h).ok().map(|o| o.0);
+            if got != want {
+                let i = match (&got, &want) {
+                    (Some(g), Some(wv)) => (0..w * h).find(|&i| g[i] != wv[i]),
+                    _ => None,
+                };
+                acc.violation(
+                    idx,
+                    format!("depends-on-content-at-construction op={op}"),
+                    format!("{w}x{h}: an image constructed as '{what}' and overwritten through data_mut() converts differently from one constructed with the final content{}", i.map(|i| format!(" (first differing pixel {i}: {:?} vs {:?})", got.as_ref().unwrap()[i].map(f32::from_bits), want.as_ref().unwrap()[i].map(f32::from_bits))).unwrap_or_default()),
+                    case(),
+                );
                 return;
             }
         }
@@ -424,6 +499,7 @@ fn hist_run_t<T: Pixel>(o: &HOp) -> Result<Vec<u32>, String> {
         4 => (4, 4, (1, 1)),
         // large frames: more pixels than a 16-bit sample has code values (65,539 is prime)
         5 => (65_539, 1, (0, 0)),
+        7 => (16, 8, (0, 0)),
         _ => (262, 252, (1, 1)),
     };
     let m = &o.meta;
@@ -836,6 +912,121 @@ fn replay_history(case: &Value) -> (bool, String) {
     }
 }
 
+
+// ---- concurrent calls (observer; schedules are sampled, not enumerated) ---------------------------
+//
+// The library has no shared state, so concurrent conversions cannot interfere. A change that adds
+// shared state guarded wrongly (a key checked outside its lock, a parameter passed through a
+// `static`) is invisible to every sequential history. std's atomics and locks cannot be put under a
+// controlled scheduler without rewriting the subject, so this stratum is a FREE-RUNNING observer:
+// for every pair of operations that differ in exactly one metadata field (the pairs a partial key
+// confuses), two threads call them concurrently in a loop and every result is compared with the
+// sequential reference. A mismatch is a real execution of the real code and is reported; silence is
+// not a proof (the evidence labels this bucket as sampled).
+
+fn conc_pairs(tier: Tier) -> Vec<(HOp, HOp)> {
+    use crate::refmodel::{ALL_MATRICES, ALL_PRIMARIES};
+    let bases = [(MC::BT709, CP::BT709, TC::BT1886), (MC::Identity, CP::BT470BG, TC::SRGB)];
+    let mut out = vec![];
+    for &(m, p, t) in bases.iter().take(tier.pick(1, 2)) {
+        let mut families: Vec<Vec<Meta>> = vec![];
+        families.push(ALL_MATRICES.iter().filter(|x| **x != MC::Unspecified && **x != MC::Reserved).map(|&m2| Meta { m: m2, p, t, wide: false, full: false, ss: (0, 0) }).collect());
+        families.push(ALL_PRIMARIES.iter().filter(|x| **x != CP::Unspecified && **x != CP::Reserved && **x != CP::Reserved0).map(|&p2| Meta { m, p: p2, t, wide: false, full: false, ss: (0, 0) }).collect());
+        families.push(crate::refmodel::SUPPORTED_TRANSFERS.iter().map(|&t2| Meta { m, p, t: t2, wide: false, full: false, ss: (0, 0) }).collect());
+        families.push([(false, false), (true, false), (false, true), (true, true)].iter().map(|&(wide, full)| Meta { m, p, t, wide, full, ss: (0, 0) }).collect());
+        for fam in families {
+            for (a, b, _) in PAIRS {
+                for conv in [a, b] {
+                    for i in 0..fam.len() {
+                        for j in i + 1..fam.len() {
+                            out.push((HOp { conv, meta: fam[i], variant: 7, depth: 0 }, HOp { conv, meta: fam[j], variant: 7, depth: 0 }));
+                        }
+                    }
+                }
+            }
+        }
+    }
+    out
+}
+
+/// Run `a` and `b` concurrently `rounds` times each; returns the first result that differs from
+/// its sequential reference as (which, round).
+fn race_pair(a: HOp, b: HOp, ra: &Result<Vec<u32>, String>, rb: &Result<Vec<u32>, String>, rounds: usize) -> Option<(u8, usize)> {
+    let barrier = std::sync::Barrier::new(2);
+    let stop = std::sync::atomic::AtomicBool::new(false);
+    std::thread::scope(|s| {
+        let run = |op: HOp, want: &Result<Vec<u32>, String>, which: u8| {
+            let (barrier, stop) = (&barrier, &stop);
+            let want = want.clone();
+            s.spawn(move || {
+                barrier.wait();
+                for k in 0..rounds {
+                    if stop.load(Ordering::Relaxed) {
+                        break;
+                    }
+                    if hist_run(&op) != want {
+                        stop.store(true, Ordering::Relaxed);
+                        return Some((which, k));
+                    }
+                }
+                None
+            })
+        };
+        let (ha, hb) = (run(a, ra, 0), run(b, rb, 1));
+        let (xa, xb) = (ha.join().expect("race thread"), hb.join().expect("race thread"));
+        xa.or(xb)
+    })
+}
+
+fn check_concurrent(rep: &mut Report, tier: Tier, base_idx: u64) {
+    let pairs = conc_pairs(tier);
+    let rounds = tier.pick(60, 400);
+    // one pair at a time: the two racing threads are the only threads calling the library, so a
+    // mismatch is attributable to this pair and the replay (the same pair, alone) can reproduce it
+    let acc = (|| {
+        let mut acc_store = Acc::default();
+        let acc = &mut acc_store;
+        let (lo, hi) = (0u64, pairs.len() as u64);
+        for i in lo..hi {
+            let (a, b) = pairs[i as usize];
+            // sequential references, each on a fresh thread
+            let (ra, rb) = (run_history(vec![a]).pop().unwrap(), run_history(vec![b]).pop().unwrap());
+            acc.states += 1;
+            acc.transitions += 2 * rounds as u64;
+            if let Some((which, k)) = race_pair(a, b, &ra, &rb, rounds) {
+                let (x, y) = if which == 0 { (a, b) } else { (b, a) };
+                acc.violation(
+                    base_idx + i,
+                    format!("result-depends-on-concurrent-calls conv={:?}", x.conv),
+                    format!("{:?} gives a different result (round {k}) while another thread runs {:?}", x, y),
+                    json!({"kind":"c11conc","a":hop_json(&a),"b":hop_json(&b)}),
+                );
+                return acc_store;
+            }
+        }
+        acc.bucket("concurrent pairs (free-running threads: schedules sampled, not enumerated): every result equals the sequential result", hi - lo);
+        acc_store
+    })();
+    rep.acc.merge(acc);
+    rep.extra.insert("concurrent_pairs".into(), json!(pairs.len()));
+    rep.extra.insert("concurrent_rounds_per_pair".into(), json!(rounds));
+}
+
+fn replay_concurrent(case: &Value) -> (bool, String) {
+    let (a, b) = (hop_from(&case["a"]), hop_from(&case["b"]));
+    let (ra, rb) = (run_history(vec![a]).pop().unwrap(), run_history(vec![b]).pop().unwrap());
+    // alone in this process; up to 20 x 5000 rounds
+    for _ in 0..20 {
+        if let Some((which, _)) = race_pair(a, b, &ra, &rb, 5000) {
+            // (no round number: which round goes wrong is up to the scheduler, the verdict is not)
+            let (x, y) = if which == 0 { (a, b) } else { (b, a) };
+            let (x, y) = if format!("{x:?}") <= format!("{y:?}") { (x, y) } else { (y, x) };
+            return (true, format!("result-depends-on-concurrent-calls :: {:?} and {:?} called concurrently from two threads: a result differs from the sequential one", x, y));
+        }
+    }
+    (false, "100,000 concurrent rounds agree with the sequential results".into())
+}
+
 // ---- driver -------------------------------------------------------------------------------------
 
 fn dec_cases(tier: Tier) -> Vec<DecCase> {
@@ -971,6 +1162,7 @@ pub fn run(tier: Tier) -> Report {
     rep.acc.merge(acc);
     check_histories(&mut rep, tier, base + ec.len() as u64);
     check_histories_process(&mut rep, tier, base + ec.len() as u64 + 1);
+    check_concurrent(&mut rep, tier, base + ec.len() as u64 + 2);
     rep.guard_bucket("histories [a,b] and [a,b,a]: every result equals the fresh-thread result");
     rep.guard_bucket("large frames: histories [a,b] and [a,b,a]: every result equals the fresh-thread result");
     rep.bound = format!(
@@ -1005,6 +1197,7 @@ pub fn replay(case: &Value) -> (bool, String) {
         }
         "c11float" => check_float(&mut acc, 0, g("w"), g("h"), case["op"].as_str().unwrap()),
         "c11hist" => return replay_history(case),
+        "c11conc" => return replay_concurrent(case),
         "c11histproc" => return replay_history_process(case),
         "c11decseq" => {
             let tier = if case["tier"] == "thorough" { Tier::Thorough } else { Tier::Quick };
